@@ -48,18 +48,22 @@ structure Cfg where
   /-- D26: `hostrange_cmp` compares the low bounds as numbers instead of returning their
       `unsigned long` difference cut to `int` -/
   fixCmpTrunc : Bool := false
+  /-- D1: `hostlist_delete` erases EVERY occurrence of each listed name (not the first only) -/
+  fixDeleteAll : Bool := false
+  /-- D2 (opt.c `list_push_hostlist`): the buffer doubling loop really doubles -/
+  fixPushLoop : Bool := false
   deriving DecidableEq, Repr, Inhabited
 
 /-- the code as found -/
 def Cfg.unchanged : Cfg :=
   { fixUlongMax := false, fixDigits := false, fixIterSuffix := false, fixCurTok := false,
     fixSuffixBal := false, fixHostBuf := false, fixNth := false, fixRemoveDepth := false,
-    fixPopIter := false, fixCmpTrunc := false }
+    fixPopIter := false, fixCmpTrunc := false, fixDeleteAll := false, fixPushLoop := false }
 /-- the code with findings/C01.patch, C15.patch (and D24 of C16.patch) applied -/
 def Cfg.repaired : Cfg :=
   { fixUlongMax := true, fixDigits := true, fixIterSuffix := true, fixCurTok := true,
     fixSuffixBal := true, fixHostBuf := true, fixNth := true, fixRemoveDepth := true,
-    fixPopIter := true, fixCmpTrunc := true }
+    fixPopIter := true, fixCmpTrunc := true, fixDeleteAll := true, fixPushLoop := true }
 
 /-! ### `unsigned long` -/
 def U64 : Nat := 18446744073709551616
